@@ -3544,7 +3544,7 @@ class Phonopy:
         else:
             if is_projection:
                 if self._mesh.eigenvectors is None:
-                    return RuntimeError(
+                    raise RuntimeError(
                         "run_mesh has to be done with with_eigenvectors=True."
                     )
                 self._moment = PhononMoment(
